@@ -41,6 +41,10 @@ def cases(tier, seed):
                         continue
                     if tier == 'quick' and len(seq) == 2 and (curved or len(cuts) > 2):
                         continue
+                    if tier == 'quick' and len(cuts) == 3:
+                        continue
+                    if tier == 'quick' and curved and len(cuts) in (2, 4) and len(seq) == 1 and seq[0] not in ('b1d_bf', 't2d'):
+                        continue
                     out.append(dict(kind='bay', curved=curved, cuts=list(cuts), stiffs=list(seq), seed=seed))
     return out
 
@@ -100,7 +104,7 @@ def check_assembly(case):
 
 
 # ------------------------------------------------------------------------------------------------ bays
-def mk_bay(curved, cut_idx, stiffs, seed, only=None):
+def mk_bay(curved, cut_idx, stiffs, seed, only=None, forces=False, extra_cuts=True):
     """Bay with skin cut at the given positions and stiffeners placed on the first cuts (in order)."""
     from compmech.stiffpanelbay import StiffPanelBay
     spb = StiffPanelBay()
@@ -108,11 +112,13 @@ def mk_bay(curved, cut_idx, stiffs, seed, only=None):
     if curved:
         spb.r = 2.0
     spb.stack, spb.plyt, spb.laminaprop, spb.mu = [0., 90., 90., 0.], pan.PLYT, pan.M6, 1500.
+    if not extra_cuts:          # keep only the cuts that carry a stiffener
+        cut_idx = list(cut_idx)[:len(stiffs)]
     ys = [0.0] + [CUTS[i] * spb.b for i in cut_idx] + [spb.b]
     for y1, y2 in zip(ys[:-1], ys[1:]):
         spb.add_panel(y1=y1, y2=y2, Nxx=-1.0e3, Nxy=0.3e3)
     fl = dict(bf=0.03, fstack=[0., 90., 0.], fplyt=pan.PLYT, flaminaprop=pan.M6)
-    bs = dict(bb=0.04, bstack=[0., 90.], bplyt=pan.PLYT, blaminaprop=pan.M6)
+    bs = dict(bb=0.16, bstack=[0., 90.], bplyt=pan.PLYT, blaminaprop=pan.M6)      # wider than the distance between neighbouring cuts
     for k, st in enumerate(stiffs):
         if only is not None and k != only:
             continue
@@ -129,6 +135,12 @@ def mk_bay(curved, cut_idx, stiffs, seed, only=None):
             s = spb.add_bladestiff2d(ys=y, mu=1500., mf=3, nf=3, **fl)
         elif st == 't2d':
             s = spb.add_tstiff2d(ys=y, mu=1500., mf=3, nf=3, mb=2, nb=3, **fl, **bs)
+        if forces and stiff_size(st):
+            s.flange.add_force(0.3 * spb.a, 0.5 * s.flange.b, 0.5 + k, 0., 1.5)
+            if st == 't2d':
+                s.base.add_force(0.7 * spb.a, 0.25 * s.base.b, 0., 1. + k, -2.)
+    if forces:
+        spb.forces_skin.append([0.37 * spb.a, 0.61 * spb.b, 1.3, -0.7, 2.9])
     return spb
 
 
@@ -208,6 +220,36 @@ def check_bay(case):
                 idx = np.unravel_index(np.argmax(np.abs(G[nm] - total[nm])), G[nm].shape)
                 fails.append(fail('bay %s is not the skin plus each stiffener evaluated alone and placed at its own range of amplitudes' % nm,
                                   sig=None, case=case, index=[int(v) for v in idx], got=float(G[nm][idx]), expected=float(total[nm][idx])))
+        # (3) with the stiffeners present: cutting the skin at further positions changes nothing
+        if len(cuts) > len(stiffs):
+            M0 = mats(mk_bay(curved, cuts, stiffs, seed, extra_cuts=False))
+            execs += 3
+            for nm in G:
+                sc = np.abs(M0[nm]).max() + 1e-300
+                if np.abs(G[nm] - M0[nm]).max() > 1e-11 * sc:
+                    fails.append(fail('splitting the skin at further positions changes the global %s of a stiffened bay' % nm, sig=None, case=case,
+                                      rel=float(np.abs(G[nm] - M0[nm]).max() / sc)))
+        # (4) force vector == skin forces + each stiffener's forces placed at that stiffener's own range
+        fb = mk_bay(curved, cuts, stiffs, seed, forces=True)
+        fb.calc_k0(silent=True)
+        fext = np.asarray(fb.calc_fext(silent=True), dtype=float)
+        exp = np.zeros(size)
+        fs = mk_bay(curved, cuts, [], seed, forces=True)
+        fs.calc_k0(silent=True)
+        exp[:nskin] = np.asarray(fs.calc_fext(silent=True), dtype=float)
+        for k, st in enumerate(stiffs):
+            ns = stiff_size(st)
+            if not ns:
+                continue
+            one = mk_bay(curved, cuts, stiffs, seed, only=k, forces=True)
+            one.calc_k0(silent=True)
+            f1 = np.asarray(one.calc_fext(silent=True), dtype=float)
+            exp[offs[k]:offs[k] + ns] += f1[nskin:nskin + ns]
+            execs += 1
+        execs += 2
+        if fext.shape != (size,) or np.abs(fext - exp).max() > 1e-12 * (np.abs(exp).max() + 1e-300):
+            fails.append(fail('bay force vector is not the skin forces plus each stiffener\'s forces at that stiffener\'s own range of amplitudes',
+                              sig=None, case=case, got=fext[nskin:nskin + 8] if fext.shape == (size,) else None, expected=exp[nskin:nskin + 8]))
     return dict(fails=fails[:6], execs=execs, transitions=execs, nontrivial=int(len(stiffs) + len(cuts) > 0))
 
 
